@@ -6,6 +6,10 @@ statement of /repo/src/django_components that reads or writes process-global sta
 statements are located in the CURRENT source by (file, enclosing function, statement text) through `ast`, never
 by line number.
 
+Fine mode (`fine=True`): every source line of the files that contain anchors is a switch point (recorded as "_"); used
+for seeded random exploration judged by the direct property oracle only (local lines commute with other threads' actions,
+so on code whose shared accesses are all anchors this adds no behaviours; it exists to expose NEW unanchored sharing).
+
 Schedule semantics (the Gallina model `Conc.Model.run` has the same): a schedule is a list of thread names.
 Each element allows the named thread to execute ONE anchor-step: the anchor statement it is waiting at plus
 everything after it up to (not including) its next anchor statement.  Elements naming a finished thread are
@@ -114,8 +118,16 @@ def locate(anchors, src_root=None):
     return table
 
 
+class _Fine:
+    """pseudo anchor: any other source line of the traced files (fine-grained exploration mode)"""
+    name, detail, is_for = "_", None, False
+
+
+FINE = _Fine()
+
+
 class Scheduler:
-    def __init__(self, table, names, schedule, timeout=20.0, on_hit=None):
+    def __init__(self, table, names, schedule, timeout=20.0, on_hit=None, fine=False):
         self.table = table
         self.files = {k[0] for k in table}
         self.names = list(names)
@@ -130,6 +142,7 @@ class Scheduler:
         self.last_progress = time.time()
         self.in_loop = {}              # (thread, frame id, lineno) -> True while inside that loop
         self.on_hit = on_hit
+        self.fine = fine               # True: EVERY line of the traced files is a switch point (no model prediction then)
 
     # -- who runs next -------------------------------------------------------------------------
     def _next_runner(self):
@@ -194,6 +207,8 @@ class Scheduler:
                         except Exception as e:  # noqa
                             d = "?" + type(e).__name__
                     self.at_anchor(me, a, d)
+                elif self.fine:
+                    self.at_anchor(me, FINE, None)
                 self._prev[(me, id(frame))] = frame.f_lineno
             elif event == "return":
                 self._prev.pop((me, id(frame)), None)
@@ -256,8 +271,8 @@ class Scheduler:
         return out, list(self.trace), bool(self.abort or hung)
 
 
-def run_schedule(table, tasks, names, schedule, timeout=20.0):
-    s = Scheduler(table, names, schedule, timeout=timeout)
+def run_schedule(table, tasks, names, schedule, timeout=20.0, fine=False):
+    s = Scheduler(table, names, schedule, timeout=timeout, fine=fine)
     return s.run(tasks)
 
 
